@@ -8,7 +8,7 @@ from ..cfg import build_cfg, calls_in, node_calls
 from ..core import Ctx, property_info, rule, share
 from ..model import AnalysisError, FuncInfo, walk_no_nested
 from ..q import A, asrc, bound_arg, enum_members, is_self_attr, kwarg, stores, unparse
-from .c03 import event_grammar
+from .c03 import declare_before_use, event_grammar
 
 M = "xsdata.formats.dataclass.models"
 SER = "xsdata.formats.dataclass.serializers.mixins"
@@ -25,6 +25,7 @@ property_info(
 )
 
 share("C01", "C01.R3", event_grammar)
+share("C01", "C01.R6", declare_before_use)  # a QName value whose prefix is declared too late cannot be read back
 
 
 def _kind_chain(ctx: Ctx) -> tuple[dict[str, str], str | None]:
